@@ -225,4 +225,10 @@ var regressionInputs = []string{
 	"EXPLAIN REPLACE",
 	"CREATE TABLE t (x Tuple(a))",
 	"CREATE TABLE t (x Nested(k String, v))",
+	"SELECT 0x" + strings.Repeat("F", 257),
+	"SELECT -1e999::Float64",
+	"SELECT " + strings.Repeat("a", 63) + "é",
+	"SELECT CAST(1 AS Tuple(\"\" UInt8))",
+	"CREATE TABLE t (a Int32) ENGINE = Memory ENGINE = Memory",
+	strings.Repeat(") ", 1001),
 }
